@@ -8,7 +8,9 @@
 //! expected answers up in the model's answer for the `T` line of the same chunks).
 //! `D<flags> <plen> ; <code points>` and `G<flags> <code points> ; <spans>`: SpannedDiagnosticFormatter
 //! (lrpar/src/lib/diagnostics.rs), see `diag_case` / `spanned_case`; `C <hex grammar>`: `conflicts_case`;
-//! `E <code points>`: `LexParseError::pp` of errors that COVER text (hand-built lexers), see `errpp_case`.
+//! `E <code points>`: `LexParseError::pp` of errors that COVER text (hand-built lexers), see `errpp_case`;
+//! `N <code points> ; <fed code points>`: lexer-level positions when the cache was fed another text, see `unfed_case`;
+//! `I <hex grammar>`: `format_conflicts` on Eco grammars whose conflicts name added productions, see `conflicts_added_case`.
 use gvh::util::*;
 use cfgrammar::{NewlineCache, Span};
 use lrlex::{DefaultLexerTypes, LRNonStreamingLexerDef, LexerDef};
@@ -271,6 +273,145 @@ fn conflicts_case(line: &str) -> String {
     out
 }
 
+/// `I <hex of a yacc grammar source (YaccKind::Eco)>`: `format_conflicts` on grammars whose conflicts may name
+/// productions the grammar ADDS (`~`, `^~` for `%implicit_tokens`; `^`), which have no counterpart in the AST.
+/// Result: `K x<hex of the output>` (or `K P`), then per conflict, in the order they are formatted
+/// (reduce/reduce first), the spans THE GRAMMAR reports through its public accessors:
+/// ` | RR <a> <r1s> <r1e> <r2s> <r2e> <ts|-> <te|->` (rule_name_span of both rules, token_span of the lookahead)
+/// ` | SR <a> <rs> <re> <ts> <te> ; s e s e ...` (rule_name_span, token_span of the shifted token, then the spans
+/// of the reduced production's symbols in the AST, or `prod_span` when it has none / is an added production);
+/// `<a>` = 1 when a production of the conflict lies beyond the AST's production list.
+fn conflicts_added_case(line: &str) -> String {
+    use cfgrammar::yacc::{ast::{ASTWithValidityInfo, Symbol}, YaccGrammar, YaccKind};
+    let src = gvh::common::unhex(line.trim());
+    let astv = ASTWithValidityInfo::new(YaccKind::Eco, &src);
+    let grm = match YaccGrammar::<u32>::new_from_ast_with_validity_info(&astv) {
+        Ok(g) => g,
+        Err(_) => return "GRMERR".to_string(),
+    };
+    let (sg, st) = match lrtable::from_yacc(&grm, lrtable::Minimiser::Pager) {
+        Ok(x) => x,
+        Err(_) => return "TBLERR".to_string(),
+    };
+    let c = match st.conflicts() {
+        Some(c) => c,
+        None => return "NOCONFLICT".to_string(),
+    };
+    let path = std::path::PathBuf::from("f");
+    let r = catch(std::panic::AssertUnwindSafe(|| {
+        let fmt = SpannedDiagnosticFormatter::new(&src, &path);
+        fmt.format_conflicts::<DefaultLexerTypes<u32>>(&grm, astv.ast(), c, &sg, &st)
+    }));
+    let mut out = String::new();
+    res_hex(&mut out, "K", "0", r);
+    let mut out = out[3..].to_string();
+    let nast = astv.ast().prods.len();
+    let r = catch(std::panic::AssertUnwindSafe(|| {
+        let mut out = String::new();
+        for (tidx, p1, p2, _) in c.rr_conflicts() {
+            let a = usize::from(*p1) >= nast || usize::from(*p2) >= nast;
+            let s1 = grm.rule_name_span(grm.prod_to_rule(*p1));
+            let s2 = grm.rule_name_span(grm.prod_to_rule(*p2));
+            let ts = if grm.token_name(*tidx).is_some() {
+                grm.token_span(*tidx)
+            } else {
+                grm.token_idx("$").and_then(|t| grm.token_span(t))
+            };
+            write!(out, " | RR {} {} {} {} {}", a as u8, s1.start(), s1.end(), s2.start(), s2.end()).unwrap();
+            match ts {
+                Some(t) => write!(out, " {} {}", t.start(), t.end()).unwrap(),
+                None => out.push_str(" - -"),
+            }
+        }
+        for (tidx, pidx, _) in c.sr_conflicts() {
+            let a = usize::from(*pidx) >= nast;
+            let rs = grm.rule_name_span(grm.prod_to_rule(*pidx));
+            let ts = grm.token_span(*tidx).unwrap();
+            write!(out, " | SR {} {} {} {} {} ;", a as u8, rs.start(), rs.end(), ts.start(), ts.end()).unwrap();
+            let mut spans: Vec<Span> = match astv.ast().prods.get(usize::from(*pidx)) {
+                Some(prod) => prod
+                    .symbols
+                    .iter()
+                    .map(|sym| match sym {
+                        Symbol::Rule(_, sp) => *sp,
+                        Symbol::Token(_, sp) => *sp,
+                    })
+                    .collect(),
+                None => Vec::new(),
+            };
+            if spans.is_empty() {
+                spans.push(grm.prod_span(*pidx));
+            }
+            for sp in spans {
+                write!(out, " {} {}", sp.start(), sp.end()).unwrap();
+            }
+        }
+        out
+    }));
+    match r {
+        Ok(t) => out.push_str(&t),
+        Err(_) => out.push_str(" | ACCESSORPANIC"),
+    }
+    out
+}
+
+/// `N <code points> ; <fed code points>`: a lexer built through the public `LRNonStreamingLexer::new(text, lexemes, cache)`
+/// whose cache was fed the SECOND text (the shipped manual-lexer example fed nothing).  For every boundary span (s, e) of
+/// the text: ` | s e l c l1 c1 l2 c2` = the position `LexParseError::pp` prints for a lexing error of that span and the two
+/// pairs `NonStreamingLexer::line_col` returns; ` | s e P` when both panic.
+fn unfed_case(line: &str) -> String {
+    use lrlex::{LRLexError, LRNonStreamingLexer};
+    type LT = DefaultLexerTypes<u32>;
+    let mut it = line.splitn(2, ';');
+    let text = cps_to_string(it.next().unwrap());
+    let fed = cps_to_string(it.next().unwrap_or(""));
+    let mut bounds: Vec<usize> = text.char_indices().map(|(i, _)| i).collect();
+    bounds.push(text.len());
+    let mut out = String::from("P");
+    for (i, &a) in bounds.iter().enumerate() {
+        for &b in &bounds[i..] {
+            let mk = || {
+                let mut cache = NewlineCache::new();
+                if !fed.is_empty() {
+                    cache.feed(&fed);
+                }
+                let lexer: LRNonStreamingLexer<LT> =
+                    LRNonStreamingLexer::new(&text, vec![Err(LRLexError::new(Span::new(a, b)))], cache);
+                lexer
+            };
+            let r1 = catch(std::panic::AssertUnwindSafe(|| {
+                let lexer = mk();
+                let e = lexer.iter().next().unwrap().unwrap_err();
+                let lpe: LexParseError<u32, LT> = LexParseError::LexError(e);
+                lpe.pp(&lexer, &|_| None)
+            }));
+            let r2 = catch(std::panic::AssertUnwindSafe(|| mk().line_col(Span::new(a, b))));
+            match (r1, r2) {
+                (Err(_), Err(_)) => write!(out, " | {} {} P", a, b).unwrap(),
+                (r1, r2) => {
+                    let p1 = match r1 {
+                        Ok(m) => {
+                            // "Lexing error at line L column C."
+                            let nums: Vec<&str> = m
+                                .split(|ch: char| !ch.is_ascii_digit())
+                                .filter(|t| !t.is_empty())
+                                .collect();
+                            nums.join(" ")
+                        }
+                        Err(_) => "P P".to_string(),
+                    };
+                    let p2 = match r2 {
+                        Ok(((l1, c1), (l2, c2))) => format!("{} {} {} {}", l1, c1, l2, c2),
+                        Err(_) => "P P P P".to_string(),
+                    };
+                    write!(out, " | {} {} {} {}", a, b, p1, p2).unwrap()
+                }
+            }
+        }
+    }
+    out
+}
+
 fn main() {
     gvh::quiet_panics();
     for_each_case(|line| {
@@ -281,6 +422,12 @@ fn main() {
         }
         if let Some(rest) = line.strip_prefix("C") {
             return conflicts_case(rest);
+        }
+        if let Some(rest) = line.strip_prefix("N") {
+            return unfed_case(rest);
+        }
+        if let Some(rest) = line.strip_prefix("I") {
+            return conflicts_added_case(rest);
         }
         if let Some(rest) = line.strip_prefix("E") {
             return errpp_case(rest);
